@@ -128,6 +128,21 @@ pub mod verif_fs {
         static BEFORE_FS_OP: RefCell<Option<BeforeFsOp>> = const { RefCell::new(None) };
     }
 
+    thread_local! {
+        static ARTIFACTS_OVERRIDE: RefCell<Option<Vec<ArtifactPathAndContent>>> =
+            const { RefCell::new(None) };
+    }
+
+    /// The next `compile` on this thread writes these artifacts instead of the generated ones
+    /// (lets the harness drive the real `compile` with arbitrary artifact sets).
+    pub fn set_artifacts_override(artifacts: Option<Vec<ArtifactPathAndContent>>) {
+        ARTIFACTS_OVERRIDE.with(|c| *c.borrow_mut() = artifacts);
+    }
+
+    pub fn take_artifacts_override() -> Option<Vec<ArtifactPathAndContent>> {
+        ARTIFACTS_OVERRIDE.with(|c| c.borrow_mut().take())
+    }
+
     /// Install (or clear, with `None`) the fault-injection callback of the current thread.
     pub fn set_before_fs_op(callback: Option<BeforeFsOp>) {
         BEFORE_FS_OP.with(|c| *c.borrow_mut() = callback);
